@@ -27,13 +27,18 @@ pub open spec fn pending_ok(s0: St, a: PathV, done: Set<PathV>, ps: Seq<PathBuf>
 pub open spec fn ent_of(s: St, k: PathV) -> Option<EntryV> { if s.entries.contains_key(k) { Some(s.entries[k]) } else { None } }
 pub open spec fn file_of(s: St, k: PathV) -> Option<FileV> { if s.files.contains_key(k) { Some(s.files[k]) } else { None } }
 pub open spec fn moved(e: EntryV, np: PathV) -> EntryV { EntryV { path: np, ..e } }
-// the destination subtree is free: nothing exists at or below d0 (a move onto an existing entry is outside this contract)
-pub open spec fn free_below(s0: St, d0: PathV) -> bool { forall|k: PathV| #[trigger] s0.entries.contains_key(k) ==> !in_sub(d0, k) }
+// nothing exists strictly below the destination d0 (d0 itself may exist: it is then replaced)
+pub open spec fn free_below(s0: St, d0: PathV) -> bool { forall|k: PathV| #[trigger] s0.entries.contains_key(k) ==> !(in_sub(d0, k) && k != d0) }
+// an existing destination can be replaced unless it is a directory that has children or that would be replaced by a non-directory
+pub open spec fn replaceable(s0: St, a: PathV, d0: PathV) -> bool {
+    !s0.entries.contains_key(d0) || !s0.entries[d0].dir
+    || (s0.entries[a].dir && (s0.entries[d0].kids is None || s0.entries[d0].kids->Some_0 =~= Set::<Name>::empty()))
+}
 // entry / file stored under key k after the set `done` of source nodes has been relocated from a to d0 (d0 != a, destination free)
 pub open spec fn ent_after(s0: St, a: PathV, d0: PathV, done: Set<PathV>, k: PathV) -> Option<EntryV> {
     if in_sub(d0, k) {
         let m = a + k.skip(d0.len() as int);
-        if done.contains(m) { Some(moved(s0.entries[m], k)) } else { None }
+        if done.contains(m) { Some(moved(s0.entries[m], k)) } else if k == d0 { ent_of(s0, d0) } else { None }      // d0 itself may exist until it is replaced
     } else if in_sub(a, k) {
         if s0.entries.contains_key(k) && !done.contains(k) { Some(s0.entries[k]) } else { None }
     } else if !s0.entries.contains_key(k) { None } else {
@@ -46,7 +51,7 @@ pub open spec fn ent_after(s0: St, a: PathV, d0: PathV, done: Set<PathV>, k: Pat
 pub open spec fn file_after(s0: St, a: PathV, d0: PathV, done: Set<PathV>, k: PathV) -> Option<FileV> {
     if in_sub(d0, k) {
         let m = a + k.skip(d0.len() as int);
-        if done.contains(m) && s0.files.contains_key(m) { Some(s0.files[m]) } else { None }
+        if done.contains(m) { if s0.files.contains_key(m) { Some(s0.files[m]) } else { None } } else if k == d0 { file_of(s0, d0) } else { None }
     } else if in_sub(a, k) {
         if s0.files.contains_key(k) && !done.contains(k) { Some(s0.files[k]) } else { None }
     } else { file_of(s0, k) }
@@ -246,7 +251,7 @@ pub proof fn lemma_state_step(s0: St, a: PathV, d0: PathV, done: Set<PathV>, st1
             let pa = a.drop_last();
             let pd = d0.drop_last();
             &&& st2.cwd == st1.cwd && st2.cwd_ok == st1.cwd_ok
-            &&& st2.files =~= (if st1.files.contains_key(p) { st1.files.remove(p).insert(q, st1.files[p]) } else { st1.files })
+            &&& st2.files =~= (if st1.files.contains_key(p) { st1.files.remove(p).insert(q, st1.files[p]) } else { st1.files.remove(q) })
             &&& (p != a ==> st2.entries =~= e1)
             &&& (p == a ==> st2.entries =~= e1.insert(pa, del_kid(e1[pa], a.last())).insert(pd, add_kid(e1.insert(pa, del_kid(e1[pa], a.last()))[pd], d0.last())))
         }),
@@ -530,6 +535,26 @@ pub proof fn lemma_moved_wf(s0: St, a: PathV, d0: PathV, st: St)
 //@ obligation lemma_key_shapes props=C03,C09
 //@ obligation lemma_moved_wf props=C03,C09
 
+// validity gives a free destination: below a missing path, a non-directory or a childless directory nothing exists (wf)
+pub proof fn lemma_valid_free(s0: St, a: PathV, d0: PathV)
+    requires wf(s0), s0.entries.contains_key(a), replaceable(s0, a, d0)
+    ensures free_below(s0, d0)
+{
+    assert forall|k: PathV| #[trigger] s0.entries.contains_key(k) implies !(in_sub(d0, k) && k != d0) by {
+        if in_sub(d0, k) && k != d0 {
+            assert(k.len() > d0.len()) by { if k.len() == d0.len() { assert(k.take(d0.len() as int) =~= k); } }
+            let c = k.take(d0.len() as int + 1);
+            lemma_prefix_exists(s0, k, d0.len() as int + 1);
+            lemma_prefix_exists(s0, k, d0.len() as int);
+            assert(entry_ok(s0, c));
+            assert(c.drop_last() =~= d0) by { assert(c.drop_last() =~= k.take(d0.len() as int)); }
+            assert(entry_ok(s0, d0));
+            assert(s0.entries[d0].kids->Some_0.contains(c.last()));
+        }
+    }
+}
+//@ obligation lemma_valid_free props=C09,C01,C03
+
 //@ item move_p file=src/sys/fs/memfs/vfs.rs block="impl VirtualFileSystem for Memfs" fn=move_p props=C09,C01,C03,C12
 //@ sig fn move_p<T: AsRef<Path>, U: AsRef<Path>>(&self, src: T, dst: U) -> RvResult<()>
 //@ rw R11 1 ⟦let mut guard = self.write_guard();⟧ => ⟦⟧
@@ -566,6 +591,7 @@ pub proof fn lemma_moved_wf(s0: St, a: PathV, d0: PathV, st: St)
         proof {
             assert(a.len() > 0);
             assert(d0.len() > 0);
+            if d0 != a { lemma_valid_free(s0, a, d0); }
             lemma_init(s0, a, d0, paths@);
         }
 //@ endins
@@ -615,7 +641,7 @@ pub proof fn lemma_moved_wf(s0: St, a: PathV, d0: PathV, st: St)
             let ghost st_b = guard.st();
             proof {
                 assert(st_b.entries == st_a.entries);
-                assert(st_b.files =~= (if st1.files.contains_key(p) { st1.files.remove(p).insert(q, st1.files[p]) } else { st1.files }));
+                assert(st_b.files =~= (if st1.files.contains_key(p) { st1.files.remove(p).insert(q, st1.files[p]) } else { st1.files.remove(q) }));
             }
 //@ endins
 //@ ins before ⟦if let Some(ref files) = src_entry.files {⟧
@@ -663,7 +689,7 @@ pub proof fn lemma_moved_wf(s0: St, a: PathV, d0: PathV, st: St)
         }
 //@ endins
 pub fn move_p(guard: &mut MemfsGuard, src: &PathBuf, dst: &PathBuf) -> (r: RvResult<()>)
-    requires wf(old(guard).st()), move_hyp(old(guard).st(), src.comps(), dst.comps()),
+    requires wf(old(guard).st()),
     ensures
         r is Err ==> final(guard).st() == old(guard).st(),                                                        //@ clause move_p.failure_atomic [C01,C09]
         (spec_abs(old(guard).st().cwd, src.comps()) is None || spec_abs(old(guard).st().cwd, dst.comps()) is None) ==> r is Err,
@@ -673,7 +699,9 @@ pub fn move_p(guard: &mut MemfsGuard, src: &PathBuf, dst: &PathBuf) -> (r: RvRes
             let b = spec_abs(s0.cwd, dst.comps())->Some_0;
             let d0 = dst0(s0, a, b);      // dst itself, or dst/<name of src> when dst is an existing directory
             let valid = s0.entries.contains_key(a) && a.len() > 0 && !(in_sub(a, d0) && d0 != a) && d0.len() > 0
-                        && s0.entries.contains_key(d0.drop_last()) && s0.entries[d0.drop_last()].dir;
+                        && s0.entries.contains_key(d0.drop_last()) && s0.entries[d0.drop_last()].dir
+                        // an existing destination is replaced, except a directory that has children or that a non-directory would replace
+                        && (d0 == a || replaceable(s0, a, d0));
             &&& !valid ==> r is Err                                                                                   //@ clause move_p.invalid_moves_are_refused [C01]
             // a valid move relocates exactly the source subtree: every entry and file below src reappears below the destination with
             // its path updated, the source disappears, the two parent listings are adjusted and nothing else changes
